@@ -34,4 +34,74 @@ func gen(g *vh.Gen) {
 	}
 }
 
-func main() { vh.Main(gen, sd.Exec) }
+// genBoth: cap AND size limit on the memory store, with the oldest message of the STORE inside the
+// mailbox that overflows its cap (the combination no test of the suite uses): a fixed opening
+//
+//	a0 (oldest of the store), a1, a0 …  until mailbox 0 is at its cap, then deliveries to mailbox 0
+//
+// so that the cap evicts the store's oldest message (the enforcer has to forget it) and the next
+// size eviction must pick the then-oldest message, possibly in the other mailbox; followed by a
+// random tail of deliveries, removals and purges. Sizes are chosen around limit/cap.
+func genBoth(g *vh.Gen) {
+	for i := 0; i < g.N(120, 4000); i++ {
+		capN := 1 + g.Intn(3)
+		maxkb := 1 + g.Intn(2)
+		limit := maxkb * 1024
+		names := sd.Names(g)
+		if len(names) < 2 {
+			names = append(names, "other")
+		}
+		if len(names) > 3 {
+			names = names[:3]
+		}
+		unit := limit / (capN + 2)
+		sz := func() int { return 130 + g.Intn(unit) }
+		date := 1600000000
+		var ops []string
+		add := func(mb, size int) {
+			date += 1 + g.Intn(50)
+			ops = append(ops, "a"+vh.I(mb)+":"+vh.I(date)+":"+vh.I(size))
+		}
+		add(0, sz()) // the oldest message of the store lives in mailbox 0
+		add(1, sz())
+		for k := 1; k < capN; k++ {
+			add(0, sz())
+		}
+		ops = append(ops, "l0", "v")
+		if g.Chance(0.5) {
+			// overflow the cap of mailbox 0 only: its oldest = the store's oldest goes
+			add(0, sz())
+			ops = append(ops, "l0", "l1")
+		}
+		// overflow the cap AND push the store over the size limit in one delivery: after the cap
+		// eviction the enforcer must evict the then-oldest message of the store (mailbox 1)
+		add(0, limit-100)
+		ops = append(ops, "l0", "l1", "v")
+		if g.Chance(0.5) {
+			ops = append(ops, "r1:k0", "g1:k0")
+		}
+		add(1, sz())
+		add(0, sz())
+		tail := sd.Ops(g, len(names), sd.Profile{MinOps: 4, MaxOps: 25, Sizes: []int{150, unit, unit + 100, limit / 2, limit - 50}, PAdd: 0.6, Oversize: limit + 300})
+		// dates of the tail are generated independently; they are inputs only
+		sd.EmitHistory(g, []string{"mem"}, "direct", capN, maxkb, names, joinOps(ops)+","+tail)
+	}
+}
+
+func joinOps(ops []string) string {
+	out := ""
+	for i, o := range ops {
+		if i > 0 {
+			out += ","
+		}
+		out += o
+	}
+	return out
+}
+
+func genAll(g *vh.Gen) {
+	gen(g)
+	genBoth(g)
+}
+
+func main() { vh.Main(genAll, sd.Exec) }
